@@ -287,7 +287,7 @@ pub fn gen_named(src: &mut Src, d: usize) -> Named {
         a: src.u32() as i32,
         b: gen_string(src),
         c: if d < 2 && src.chance(80) { Some(Box::new(gen_named(src, d + 1))) } else { None },
-        d: (0..src.below(4)).map(|_| gen_e(src, 0)).collect(),
+        d: (0..if src.chance(24) { 8 + src.size(80) } else { src.below(4) }).map(|_| gen_e(src, 0)).collect(),
         e,
         f: (src.flip(), gen_char_v(src)),
         g: Unit,
@@ -301,7 +301,7 @@ pub fn gen_named(src: &mut Src, d: usize) -> Named {
                 0.25
             }
         },
-        bytes: Bytes((0..src.below(5)).map(|_| src.byte()).collect()),
+        bytes: Bytes((0..if src.chance(50) { src.size(300) } else { src.below(5) }).map(|_| src.byte()).collect()),
         ck,
         ek,
         t: TupleS(src.byte() as i8, gen_string(src), if src.flip() { Some(src.u32() as u16) } else { None }),
@@ -527,6 +527,18 @@ fn typed(src: &mut Src, st: &mut Stats, _env: &Env) -> CaseResult {
             1 => check_value("typed", "i64", &gen_i64(src), st)?,
             2 => check_value("typed", "char", &gen_char_v(src), st)?,
             3 => check_value("typed", "Option<Option<()>>", src.pick(&[None, Some(None), Some(Some(()))]), st)?,
+            4 => {
+                // long byte strings and long homogeneous sequences (block-wise conversions)
+                let n = src.size(400);
+                let bytes = Bytes((0..n).map(|i| if src.chance(200) { (i % 251) as u8 } else { src.byte() }).collect());
+                let r = check_value("typed", "Bytes", &bytes, st)?;
+                let m = src.size(300);
+                let v: Vec<u16> = (0..m).map(|i| (i as u16).wrapping_mul(257)).collect();
+                check_value("typed", "Vec<u16>", &v, st)?;
+                let w: Vec<Option<u8>> = (0..m).map(|i| if i % 7 == 3 { None } else { Some(i as u8) }).collect();
+                check_value("typed", "Vec<Option<u8>>", &w, st)?;
+                r
+            }
             _ => check_value("typed", "(Unit, Newtype, Bytes, Key)", &(Unit, Newtype(gen_i64(src)), Bytes(vec![src.byte(), src.byte()]), src.pick(&[Key::Alpha, Key::Gamma]).clone()), st)?,
         },
     };
